@@ -113,5 +113,27 @@ def load(alias, platform, natives, osname="posix", pre=None, patch_os_exists=Non
     finally:
         sys.platform, os.name = old
         os.path.exists = saved_exists
+    # pristine state, restored by reset() before every use: harnesses program the lab and patch module attributes of the alias copy
+    # (pid_exists, pids, net_if_addrs, os ...); nothing of that may survive into the next task of the same worker process
+    lab.base_answers = dict(lab.answers)
+    lab.pristine = {}
+    for m in [pkg] + [getattr(pkg, n, None) for n in ("_psplatform", "_common", "_psposix", "_pslinux")]:
+        if isinstance(m, types.ModuleType):
+            lab.pristine[m.__name__] = (m, dict(vars(m)))
     _LOADED[alias] = (pkg, mods, lab)
     return _LOADED[alias]
+
+
+def reset(alias):
+    """restore the alias copy loaded under `alias` and its lab to the state they had right after the import"""
+    pkg, mods, lab = _LOADED[alias]
+    lab.answers = dict(lab.base_answers)
+    lab.arm()
+    lab.windows = False
+    for m, snap in lab.pristine.values():
+        d = vars(m)
+        for k in [k for k in d if k not in snap]:
+            del d[k]
+        for k, v in snap.items():
+            if d.get(k, None) is not v:
+                d[k] = v
